@@ -490,9 +490,16 @@ var HashAxiomMode = "pair"
 
 // addHashApp records a hash application on the path with its collision-freedom axioms.
 func (ex *Exec) addHashApp(s *State, h HashApp) {
+	ax := func(t *Term) {
+		if s.axiomIDs == nil {
+			s.axiomIDs = map[int]bool{}
+		}
+		s.axiomIDs[t.ID] = true
+		s.addPC(t)
+	}
 	if HashAxiomMode != "pair" {
-		for _, ax := range ex.hashAxioms(h) {
-			s.addPC(ax)
+		for _, a := range ex.hashAxioms(h) {
+			ax(a)
 		}
 	}
 	if HashAxiomMode != "inv" {
@@ -500,10 +507,10 @@ func (ex *Exec) addHashApp(s *State, h HashApp) {
 		// by the (linear) length tag
 		for _, o := range s.hashes {
 			if len(o.In) == len(h.In) {
-				s.addPC(ex.pairAxiom(o, h))
+				ax(ex.pairAxiom(o, h))
 			}
 		}
-		s.addPC(ex.tt.Eq(ex.tt.UF("sha256len", 16, h.App), ex.tt.BV(uint64(len(h.In)), 16)))
+		ax(ex.tt.Eq(ex.tt.UF("sha256len", 16, h.App), ex.tt.BV(uint64(len(h.In)), 16)))
 	}
 	// no hash cycles: every whole digest embedded in the input ranks below the output
 	if len(h.In) >= 32 {
@@ -512,24 +519,11 @@ func (ex *Exec) addHashApp(s *State, h HashApp) {
 		for _, sg := range segsOf(x) {
 			p := sg.t
 			if p != nil && p.W == 256 && (p.Op == OpVar || p.Op == OpUF) {
-				s.addPC(ex.tt.Cmp(OpULt, ex.tt.UF("sha256rank", 16, p), rh))
+				ax(ex.tt.Cmp(OpULt, ex.tt.UF("sha256rank", 16, p), rh))
 			}
 		}
 	}
 	s.hashes = append(s.hashes, h)
-}
-
-func (ex *Exec) pairAxiom(a, b HashApp) *Term {
-	tt := ex.tt
-	if len(a.In) != len(b.In) {
-		return tt.Not(tt.Eq(a.App, b.App))
-	}
-	if len(a.In) == 0 {
-		return tt.True
-	}
-	x := tt.Concat(append([]*Term(nil), a.In...)...)
-	y := tt.Concat(append([]*Term(nil), b.In...)...)
-	return tt.Implies(tt.Eq(a.App, b.App), tt.Eq(x, y))
 }
 
 // hashBytes applies the collision-free SHA-256 model to concrete-length input bytes.
@@ -982,4 +976,17 @@ func inErrorsIs(ex *Exec, c *callCtx) (Value, bool) {
 		return tt.False, true
 	}
 	return tt.False, true
+}
+
+func (ex *Exec) pairAxiom(a, b HashApp) *Term {
+	tt := ex.tt
+	if len(a.In) != len(b.In) {
+		return tt.Not(tt.Eq(a.App, b.App))
+	}
+	if len(a.In) == 0 {
+		return tt.True
+	}
+	x := tt.Concat(append([]*Term(nil), a.In...)...)
+	y := tt.Concat(append([]*Term(nil), b.In...)...)
+	return tt.Implies(tt.Eq(a.App, b.App), tt.Eq(x, y))
 }
